@@ -321,7 +321,7 @@ pub struct Station {
     asm: Vec<u8>,
     asm_dst: u16,
     _task: tokio::task::JoinHandle<()>,
-    panicked: bool,
+    pub panicked: bool,
 }
 
 impl Station {
@@ -502,7 +502,7 @@ impl Station {
 }
 
 pub fn run(ops: &str, out: &mut dyn Write, mon: &mut dyn Write) {
-    std::panic::set_hook(Box::new(|_| {}));
+    std::panic::set_hook(Box::new(|i| { if std::env::var("VERIF_PANIC_TRACE").is_ok() { eprintln!("panic: {i}"); } }));
     let mut stats = Stats::default();
     for (hdr, lines) in split_cases(ops) {
         writeln!(out, "{hdr}").unwrap();
@@ -530,6 +530,8 @@ pub fn run(ops: &str, out: &mut dyn Write, mon: &mut dyn Write) {
                         st = Some(s);
                     }
                     _ if st.is_none() => outs.push("bad-op".to_string()),
+                    // after a panic of the task nothing more is done (the database mutex is poisoned)
+                    _ if st.as_ref().map(|s| s.panicked).unwrap_or(false) => {}
                     "addbin" | "addan" => {
                         let s = st.as_mut().unwrap();
                         let ok = s.add_point(ws[0], ws[1].parse().unwrap(), ws[2].parse().unwrap());
